@@ -21,7 +21,7 @@ def load():
     return d.get('findings', [])
 
 
-def entry_applies(ent, prop, meta, cfg, kind):
+def entry_applies(ent, prop, meta, cfg, kind, desc=''):
     if ent.get('status') != 'open':
         return False
     props = ent['property'] if isinstance(ent['property'], list) else [ent['property']]
@@ -35,6 +35,8 @@ def entry_applies(ent, prop, meta, cfg, kind):
         return False
     if 'kind' in m and not re.fullmatch(m['kind'], kind):
         return False
+    if 'desc' in m and not re.search(m['desc'], desc or ''):
+        return False
     macros = cfg.macros if hasattr(cfg, 'macros') else set(cfg)
     for r in m.get('requires', []):
         if r not in macros:
@@ -47,9 +49,9 @@ def entry_applies(ent, prop, meta, cfg, kind):
     return True
 
 
-def match(entries, prop, meta, cfg, kind):
+def match(entries, prop, meta, cfg, kind, desc=''):
     for ent in entries:
-        if entry_applies(ent, prop, meta, cfg, kind):
+        if entry_applies(ent, prop, meta, cfg, kind, desc):
             return ent
     return None
 
